@@ -27,8 +27,8 @@ def hvk_val(g):
 
 def _defaults_exist(h, g):
   i = z3.Int('de_i')
-  return z3.ForAll([i], z3.Implies(is_VRef(sig_dflt(g, i)), ref(sig_dflt(g, i)) < h.alloc),
-                   patterns=[sig_dflt(g, i)])
+  return FA([i], z3.Implies(is_VRef(sig_dflt(g, i)), ref(sig_dflt(g, i)) < h.alloc),
+            patterns=[sig_dflt(g, i)])
 
 
 def SigInfoInv(h, sv):
